@@ -146,3 +146,78 @@ def live_equals_ref(conf: str = "shipped") -> Dict:
         t.discharged += 1
         t.samples.append({"types": list(ref.keys())})
     return t.result(f"C19-live[{conf}]", family="C19-live", bound="concrete comparison of the live table (no solver query)")
+
+
+def prefix(conf: str = "shipped") -> Dict:
+    """C03-prefix: every '/'-prefix of every template is owned by a type with exactly that key list whose segment
+    patterns accept everything the longer template's segments accept (so get_as / parent of a typed Sid is typed with
+    exactly the prefix fields); templates with equal key sets list their keys in the same order (C02-keys)."""
+    sconf, Resolver, raw = live.load(conf)
+    t = Tally()
+    x = X()
+    names = list(sconf.sid_templates.keys())
+    segs = {T: typing_ref.split_template(sconf.sid_templates[T]) for T in names}
+    memo = {}
+
+    def included(ea: str, eb: str) -> str:
+        if ea == eb:
+            return "unsat"
+        if (ea, eb) not in memo:
+            la = z3.Intersect(sre2z3.to_z3(re.compile(ea), "full"), _noslash())
+            lb = z3.Intersect(sre2z3.to_z3(re.compile(eb), "full"), _noslash())
+            memo[(ea, eb)] = check(t, [z3.InRe(x, la), z3.Not(z3.InRe(x, lb)), bounded(x)], f"{ea} subset of {eb}", x=x)
+        return memo[(ea, eb)][0]
+
+    for T in names:
+        keys = [k for k, _ in segs[T]]
+        for j in range(1, len(keys)):
+            cands = [U for U in names if [k for k, _ in segs[U]] == keys[:j]]
+            t.queries += 1
+            ok = False
+            for U in cands:
+                if all(included(segs[T][i][1], segs[U][i][1]) == "unsat" for i in range(j)):
+                    ok = True
+                    break
+            if ok:
+                t.discharged += 1
+            else:
+                # witness: a typed string of T whose prefix is untyped
+                from spil import Sid
+                w = None
+                for cand in _sample_strings(segs[T]):
+                    s = Sid(T + ":" + cand)
+                    if s and not s.get_as(keys[j - 1]):
+                        w = cand
+                        break
+                t.violations.append({"what": f"no type owns the {j}-key prefix {keys[:j]} of {T} (candidates {cands})", "witness": w,
+                                     "replay": {"module": "tplz3.replays", "func": "prefix_typed", "args": {"type": T, "s": w or "", "key": keys[j - 1]}, "env": {"VF_CONF": conf}}})
+    # C02-keys: equal key sets -> equal key order
+    for i, a in enumerate(names):
+        for b in names[i + 1:]:
+            ka, kb = [k for k, _ in segs[a]], [k for k, _ in segs[b]]
+            if set(ka) == set(kb):
+                t.queries += 1
+                if ka == kb:
+                    t.discharged += 1
+                else:
+                    t.violations.append({"what": f"templates {a} and {b} have the same key set in different orders", "witness": [ka, kb],
+                                         "replay": {"module": "tplz3.replays", "func": "always_false", "args": {"why": f"key order {a}/{b}"}, "env": {"VF_CONF": conf}}})
+    return t.result(f"C03-prefix[{conf}]", family="C03-prefix")
+
+
+def _sample_strings(seglist):
+    """a few concrete strings of a template language (first alternative of each closed pattern, 'x' for free ones)."""
+    outs = []
+    for star in (False, True):
+        parts = []
+        for k, e in seglist:
+            m = re.match(r"^\((.*)\)$", e)
+            if m:
+                alts = m.group(1).split("|")
+                pick = alts[0]
+                pick = re.sub(r"\\d", "1", pick).replace("\\*", "*").replace("\\>", ">")
+                parts.append("*" if star else pick)
+            else:
+                parts.append("*" if star else "x")
+        outs.append("/".join(parts))
+    return outs
